@@ -789,18 +789,28 @@ class RefResolver(object):
                 a URI fragment to resolve within it
         """
 
-        fragment = fragment.lstrip(u"/")
-        parts = unquote(fragment).split(u"/") if fragment else []
+        if not fragment:
+            parts = []
+        else:
+            # A JSON pointer starts with exactly one slash, which is not
+            # part of its first (possibly empty) reference token
+            if fragment.startswith(u"/"):
+                fragment = fragment[1:]
+            parts = unquote(fragment).split(u"/")
 
         for part in parts:
             part = part.replace(u"~1", u"/").replace(u"~0", u"~")
 
-            if isinstance(document, Sequence):
-                # Array indexes should be turned into integers
-                try:
+            if (
+                isinstance(document, Sequence) and
+                not isinstance(document, str)
+            ):
+                # Array indexes should be turned into integers: "0", or
+                # ASCII digits without a leading zero (RFC 6901, section 4)
+                if part == u"0" or (
+                    part.isascii() and part.isdigit() and part[0] != u"0"
+                ):
                     part = int(part)
-                except ValueError:
-                    pass
             try:
                 document = document[part]
             except (TypeError, LookupError):
